@@ -833,7 +833,7 @@ class Interp:
                 return False
             if e.kind != f.kind:
                 return False
-            if e.kind in ("list", "deque", "set"):
+            if e.kind in ("list", "deque", "set", "numset"):
                 if len(e.items) != len(f.items) or any(x is not y for x, y in zip(e.items, f.items)):
                     return False
             elif e.kind == "dict":
@@ -1329,7 +1329,7 @@ class Interp:
             return len(v.items) > 0
         if isinstance(v, Ref):
             e = st.get(v)
-            if e.kind in ("list", "deque", "set", "dict"):
+            if e.kind in ("list", "deque", "set", "dict", "numset"):
                 return len(e.items) > 0
             if e.kind == "symlist":
                 return e.length != 0
